@@ -793,6 +793,12 @@ ares_status_t ares_servers_update(ares_channel_t *channel,
       /* Copy over link-local settings.  Its possible some of this data has
        * changed, maybe ...  */
       if (ares_strlen(sconfig->ll_iface)) {
+        if (!ares_streq(server->ll_iface, sconfig->ll_iface) ||
+            server->ll_scope != sconfig->ll_scope) {
+          /* Same address reached through another interface is another
+           * server */
+          list_changed = ARES_TRUE;
+        }
         ares_strcpy(server->ll_iface, sconfig->ll_iface,
                     sizeof(server->ll_iface));
         server->ll_scope = sconfig->ll_scope;
@@ -803,6 +809,8 @@ ares_status_t ares_servers_update(ares_channel_t *channel,
         /* Index changed, reinsert node, doesn't require any memory
          * allocations so can't fail. */
         ares_slist_node_reinsert(snode);
+        /* The order of the servers is part of the configuration */
+        list_changed = ARES_TRUE;
       }
     } else {
       status = ares_server_create(channel, sconfig, idx);
